@@ -200,7 +200,9 @@ def shard_trace(trace, scratch, nshards):
     with open(trace) as f:
         for _ in f:
             total += 1
-    per = max(1, (total + nshards - 1) // nshards)
+    # (a shard is read into memory as a whole by the trace specification: at most a few
+    # thousand events each, as many shards as that takes, NCPU of them validated at a time)
+    per = max(1, min((total + nshards - 1) // nshards, MAX_SHARD_EVENTS))
     shards = []
     cur = None
     cnt = 0
@@ -250,6 +252,9 @@ def validate_shard(d, nevents, constants, timeout):
         raise Infra("stage 3 (trace validation) did not accept the trace in %s: rc=%s states=%s events=%s %s\n%s"
                     % (d, rc, states, nevents, err[:3], tail[-2500:]))
     return mism, states
+
+
+MAX_SHARD_EVENTS = 4000
 
 
 def stage3(scratch, trace, constants, nshards=NCPU, timeout=3600):
